@@ -9,9 +9,9 @@ import (
 
 // Physical presence of an entry.
 const (
-	Absent uint8 = iota
-	Present      // physically present for sure (live, or expired and untouched since)
-	Maybe        // expired and touched by a call that may or may not have cleaned it up
+	Absent  uint8 = iota
+	Present       // physically present for sure (live, or expired and untouched since)
+	Maybe         // expired and touched by a call that may or may not have cleaned it up
 )
 
 type Ent struct {
@@ -39,19 +39,19 @@ type Ent struct {
 type M struct {
 	// StampNow, when non-zero, is the instant new expirations are computed from (ticking-clock
 	// mode: a call decides liveness with its first clock read and stamps with its last).
-	StampNow int64
-	CBFlip   bool   // checker-internal: CB is temporarily inverted for one call
-	PinNow, PinStamp int64 // checker-internal: the clock reads chosen for one call
-	DOvr     *int64 // default expiration this one call may have read (a default set concurrently with the call)
-	Tick     bool // ticking-clock mode
-	NoClock  bool // the call being checked read no clock: it cannot have seen a possibly-cleaned entry as live
-	Now    int64
-	D      int64 // default expiration as stored (raw)
-	CB     bool  // an evicted callback is installed
-	CBTag  int   // which one (1 = the adapter's first callback, 2 = its second); 0 = unknown/not tracked
-	Ents   []Ent
-	ColdN  int
-	ColdOn bool
+	StampNow         int64
+	CBFlip           bool   // checker-internal: CB is temporarily inverted for one call
+	PinNow, PinStamp int64  // checker-internal: the clock reads chosen for one call
+	DOvr             *int64 // default expiration this one call may have read (a default set concurrently with the call)
+	Tick             bool   // ticking-clock mode
+	NoClock          bool   // the call being checked read no clock: it cannot have seen a possibly-cleaned entry as live
+	Now              int64
+	D                int64 // default expiration as stored (raw)
+	CB               bool  // an evicted callback is installed
+	CBTag            int   // which one (1 = the adapter's first callback, 2 = its second); 0 = unknown/not tracked
+	Ents             []Ent
+	ColdN            int
+	ColdOn           bool
 }
 
 func New(nkeys int, now, d int64, cb bool) *M {
@@ -680,6 +680,8 @@ func (m *M) Step(o *Op, r *Res) error {
 		}
 	case HAdvance:
 		m.Now += o.D
+	case HGC:
+		// no effect on the contents
 	case HBulkSet:
 		for i := 0; i < o.N; i++ {
 			m.store(o.Key+i, o.Val+i, o.D)
